@@ -21,7 +21,14 @@ use tokio::io::{AsyncReadExt, AsyncWriteExt, DuplexStream};
 #[derive(Clone, Debug, PartialEq, Eq, Hash, PartialOrd, Ord, Serialize, Deserialize)]
 pub enum Pk {
     Connect { clean: bool },
-    ConnAck { sp: bool, code: u8, recv_max: Option<u16> },
+    ConnAck {
+        sp: bool,
+        code: u8,
+        recv_max: Option<u16>,
+        /// MQTT 5: server keep-alive announced in the CONNACK
+        #[serde(default)]
+        server_ka: Option<u16>,
+    },
     Publish {
         qos: u8,
         pkid: u16,
@@ -117,6 +124,9 @@ pub struct Cfg {
     /// MQTT 5: receive maximum announced on every connection after the first one
     #[serde(default)]
     pub recv_max_next: Option<u16>,
+    /// MQTT 5: server keep-alive (seconds) announced in every CONNACK
+    #[serde(default)]
+    pub server_ka: Option<u16>,
 }
 
 impl Cfg {
@@ -135,6 +145,7 @@ impl Cfg {
             start_connected: true,
             prelude: vec![],
             recv_max_next: None,
+            server_ka: None,
         }
     }
     pub fn prop_static(&self) -> &'static str {
@@ -443,12 +454,12 @@ impl<P: Proto> ClientWorld<P> {
                 // later connections may announce a different receive maximum (MQTT 5)
                 let rm = if self.mon.connections() > 0 && cfg.recv_max_next.is_some() { cfg.recv_max_next } else { cfg.recv_max };
                 self.offer_transport();
-                self.connack_plan = Some(Pk::ConnAck { sp: *sp, code: 0, recv_max: rm });
+                self.connack_plan = Some(Pk::ConnAck { sp: *sp, code: 0, recv_max: rm, server_ka: cfg.server_ka });
                 self.mon.last_was_error = false;
             }
             CAct::ReconnectRefused => {
                 self.offer_transport();
-                self.connack_plan = Some(Pk::ConnAck { sp: false, code: 5, recv_max: None });
+                self.connack_plan = Some(Pk::ConnAck { sp: false, code: 5, recv_max: None, server_ka: None });
                 self.mon.last_was_error = false;
             }
             CAct::ReconnectSilent => {
